@@ -14,7 +14,8 @@
      meaning of those settings; that RapidJSON / pugixml give them that meaning is observed: every produced document is
      decoded per configuration and every pretty document is checked for the configured padding character and count per
      nesting level;
-   - the XML adapter model has no theorems of its own in this file (see Properties_C01jx.v for its defects);
+   - the XML adapter's load / save model has its round-trip theorems in Properties_C01jx.v (here: its options, detection and
+     stream round trip, T_C08_xml_options_passed and the T_C08_xml_stream_ theorems);
    - validation error paths: xml_node::path() of pugixml (third party) is taken to be the names of the ancestor-or-self
      elements, a separator before each (x_render); the run compares every reported XML path with that.  For XML there is
      no standard to compare the paths with (T_C08_paths_xml_example shows what they cannot tell apart). *)
